@@ -518,11 +518,13 @@ class NearestNeighborModel(Model):
                 if k + 1 != new_L or not finite:
                     # infinite or in the bulk: add new_H_onsite to new_Hb
                     add_Hb = npc.outer(new_H_onsite, next_gs.Id.transpose(['p', 'p*']))
+                    add_Hb.iset_leg_labels(['p0', 'p0*', 'p1', 'p1*'])  # same labels for all summands
                     new_Hb = add_with_None_0(new_Hb, add_Hb)
                 else:  # finite and k = new_L - 1
                     # the new_H_onsite needs to be added to the right-most Hb
                     prev_gs = grouped_sites[k - 1]
                     add_Hb = npc.outer(prev_gs.Id.transpose(['p', 'p*']), new_H_onsite)
+                    add_Hb.iset_leg_labels(['p0', 'p0*', 'p1', 'p1*'])  # same labels for all summands
                     H_bond[-1] = add_with_None_0(H_bond[-1], add_Hb)
             H_bond[k2] = add_with_None_0(H_bond[k2], new_Hb)
             i += gs.n_sites
@@ -571,7 +573,8 @@ class NearestNeighborModel(Model):
             list(range(2 * NL + 1, 2 * (NL + NR), 2)),
         ]
         Hb = Hb.combine_legs(combine, pipes=[pipeL, pipeL.conj(), pipeR, pipeR.conj()])
-        return Hb  # labels would be 'p0', 'p0*', 'p1', 'p1*' w.r.t. gr_site_{L,R}
+        Hb.iset_leg_labels(['p0', 'p0*', 'p1', 'p1*'])  # w.r.t. gr_site_{L,R}
+        return Hb
 
     def calc_H_MPO_from_bond(self, tol_zero=1.0e-15):
         """Calculate the MPO Hamiltonian from the bond Hamiltonian.
